@@ -75,6 +75,10 @@ class Module:
         self.rel = rel              # src/icalendar/cal.py
         self.src = src
         self.tree = ast.parse(src, filename=path)
+        self.inlined = []
+        if os.environ.get("SA_NO_NORMALIZE") != "1" and name not in DATA_MODULES:
+            from .normalize import normalize
+            self.tree, self.inlined = normalize(self.tree)
         self.functions: dict[str, FuncInfo] = {}
         self.classes: dict[str, ClassInfo] = {}
         self.globals: dict[str, ast.AST] = {}
